@@ -426,9 +426,35 @@ func (g *gen) pathsTo(roots []Expr, want func(*Type) bool) []pathCand {
 				}
 			}
 		}
+		// Known finding (tag storage-load.array-of-struct, HLSL): loading a whole
+		// storage value that contains an array of structures calls Construct<S>
+		// helpers the HLSL writer never emits.
+		if rv := RootVar(c.root); rv != nil && rv.Kind == VStorage && hasArrayOfStruct(c.t) && g.f.off("storage-load.array-of-struct") {
+			continue
+		}
 		keep = append(keep, c)
 	}
 	return keep
+}
+
+// hasArrayOfStruct reports whether t contains an array whose (innermost)
+// element type is a structure.
+func hasArrayOfStruct(t *Type) bool {
+	switch t.K {
+	case TArray:
+		e := t.Elem
+		for e.K == TArray {
+			e = e.Elem
+		}
+		return e.K == TStruct || hasArrayOfStruct(e)
+	case TStruct:
+		for _, m := range t.St.Members {
+			if hasArrayOfStruct(m.T) {
+				return true
+			}
+		}
+	}
+	return false
 }
 
 // flatConstType: vector, array of scalars, or struct of scalars — the
